@@ -25,12 +25,13 @@ type c02cfg struct {
 	other       bool // a second, unrelated service exists
 	slow        bool // two in-flight requests of different length and slow late arrivals
 	offer       bool // the in-flight request offers a protocol upgrade the target does not take
+	prior       bool // the old targets were drained before (pause cut off by its deadline, then resume); the replaced containers are stopped the moment the deploy returns
 	conflict    bool // the redeploy also claims a host owned by another service and is rejected after its targets became healthy: the old set keeps serving
 	lateProbe   bool // probe timeout > probe interval; the new targets' first probe hangs, later ones succeed; clients arrive on a time grid
 }
 
 func (c c02cfg) String() string {
-	return fmt.Sprintf("old=%d new=%d clients=%dx%d inflight=%v redeploys=%d changeHosts=%v other=%v slow=%v offer=%v lateProbe=%v conflict=%v", c.nOld, c.nNew, c.clients, c.perClient, c.inflight, c.redeploys, c.changeHosts, c.other, c.slow, c.offer, c.lateProbe, c.conflict)
+	return fmt.Sprintf("old=%d new=%d clients=%dx%d inflight=%v redeploys=%d changeHosts=%v other=%v slow=%v offer=%v lateProbe=%v conflict=%v prior=%v", c.nOld, c.nNew, c.clients, c.perClient, c.inflight, c.redeploys, c.changeHosts, c.other, c.slow, c.offer, c.lateProbe, c.conflict, c.prior)
 }
 
 func tnames(prefix string, n int) []string {
@@ -77,6 +78,17 @@ func c02Scenario(c c02cfg) *Scenario {
 		}
 		time.Sleep(vI + vI/2) // one probe interval of settling
 		var wg vsync.WaitGroup
+		if c.prior {
+			wg.Add(1)
+			vsched.GoTagged("client", func() {
+				defer wg.Done()
+				w.Do(ReqSpec{ID: "prior", Host: "a.example.com", Path: "/", Plan: "hang"})
+			})
+			time.Sleep(100 * time.Millisecond)
+			w.Pause("s1", vD, vMaxPause)
+			w.Resume("s1")
+			time.Sleep(vI/2 + 100*time.Millisecond)
+		}
 		if c.inflight {
 			wg.Add(1)
 			vsched.GoTagged("client", func() {
@@ -117,6 +129,15 @@ func c02Scenario(c c02cfg) *Scenario {
 					a.ServiceOptions.Hosts = []string{"a.example.com", "b.example.com"} // b belongs to s2
 				}
 				w.Deploy(a)
+				if c.prior {
+					// what kamal does next: the replaced containers are stopped
+					for _, n := range olds {
+						if t := w.Net.Target(n); t != nil {
+							t.RefuseRequests = true
+							w.Net.CloseConnsOf(n)
+						}
+					}
+				}
 				w.Do(ReqSpec{ID: fmt.Sprintf("after%d", g), Host: "a.example.com", Path: "/"})
 			}
 		})
@@ -169,12 +190,18 @@ func c02Scenario(c c02cfg) *Scenario {
 			vs = append(vs, Violation{"C02", "setup", n})
 		}
 		for _, c := range w.Cmds {
+			if c.Name == "pause" || c.Name == "resume" {
+				continue
+			}
 			if c.Err != nil && !(cfgConflict && errors.Is(c.Err, ErrorHostInUse)) {
 				vs = append(vs, Violation{"C02", "deploy-failed", fmt.Sprintf("%s %s: %v", c.Name, c.Args, c.Err)})
 			}
 		}
 		evs := w.Net.Events()
 		for _, r := range w.Reqs {
+			if r.ID == "prior" {
+				continue // cut off by the earlier pause
+			}
 			if !r.Done {
 				vs = append(vs, Violation{"C02", "request-unfinished", r.ID})
 				continue
@@ -242,6 +269,7 @@ func c02Configs(tier string) []c02cfg {
 		cfgs = append(cfgs, c02cfg{nOld: 1, nNew: 1, clients: 2, perClient: 1, redeploys: 1, slow: true})
 		cfgs = append(cfgs, c02cfg{nOld: 1, nNew: 1, clients: 4, perClient: 1, redeploys: 1, lateProbe: true})
 		cfgs = append(cfgs, c02cfg{nOld: 1, nNew: 1, clients: 2, perClient: 1, redeploys: 1, inflight: true, other: true, conflict: true})
+		cfgs = append(cfgs, c02cfg{nOld: 1, nNew: 1, clients: 0, perClient: 0, redeploys: 1, inflight: true, prior: true})
 		return cfgs
 	}
 	for _, sh := range [][2]int{{1, 1}, {2, 1}, {1, 2}, {2, 2}} {
@@ -264,6 +292,9 @@ func c02Configs(tier string) []c02cfg {
 		for _, inf := range []bool{false, true} {
 			cfgs = append(cfgs, c02cfg{nOld: sh[0], nNew: sh[1], clients: 2, perClient: 1, redeploys: 1, inflight: inf, other: true, conflict: true})
 		}
+	}
+	for _, sh := range [][2]int{{1, 1}, {2, 1}} {
+		cfgs = append(cfgs, c02cfg{nOld: sh[0], nNew: sh[1], clients: 0, perClient: 0, redeploys: 1, inflight: true, prior: true})
 	}
 	for _, ch := range []bool{false, true} {
 		for _, ot := range []bool{false, true} {
